@@ -116,8 +116,8 @@ fn check_pair(ia: usize, ib: usize) -> Verdict {
         }
     }
     // Number arithmetic
-    for &x in &[6.0, -1.5, 0.0, 1e21] {
-        let y = 4.0;
+    let feq = |p: f64, q: f64| p == q && p.is_sign_negative() == q.is_sign_negative() || (p.is_nan() && q.is_nan());
+    for (x, y) in [(6.0, 4.0), (-1.5, 4.0), (0.0, 4.0), (1e21, 4.0), (f64::NAN, 4.0), (4.0, f64::NAN), (f64::NAN, f64::NAN), (f64::INFINITY, 4.0), (f64::INFINITY, f64::INFINITY), (f64::NEG_INFINITY, f64::INFINITY), (6.0, 0.0), (0.0, 0.0), (-0.0, 0.0), (5e-324, 4.0), (1e308, 1e308)] {
         let (na, nb) = (Number::make_with_unit(x, a), Number::make_with_unit(y, b));
         let same_unit = ia == ib;
         for (op, r, ieee) in [("add", na + nb, x + y), ("sub", na - nb, x - y)] {
@@ -126,7 +126,7 @@ fn check_pair(ia: usize, ib: usize) -> Verdict {
                     if !same_unit {
                         return Err((format!("number-{op}-different-units-accepted"), format!("{x}{} {op} {y}{} = {:?}", ra.symbol(), rb.symbol(), n)));
                     }
-                    if n.value != ieee || !n.unit.map_or(false, |u| std::ptr::eq(u, a)) {
+                    if !feq(n.value, ieee) || !n.unit.map_or(false, |u| std::ptr::eq(u, a)) {
                         return Err((format!("number-{op}-result"), format!("{x}{} {op} {y}{} = {:?}", ra.symbol(), rb.symbol(), n)));
                     }
                 }
@@ -140,7 +140,7 @@ fn check_pair(ia: usize, ib: usize) -> Verdict {
         for (op, r, ieee, ures) in [("mul", na * nb, x * y, a * b), ("div", na / nb, x / y, a / b)] {
             match (r, ures) {
                 (Ok(n), Ok(u)) => {
-                    let v_ok = n.value == ieee || (n.value.is_nan() && ieee.is_nan());
+                    let v_ok = feq(n.value, ieee);
                     if !v_ok || !n.unit.map_or(false, |w| std::ptr::eq(w, u)) {
                         return Err((format!("number-{op}-result"), format!("{x}{} {op} {y}{} = {:?}, unit result {:?}", ra.symbol(), rb.symbol(), n, u.ids)));
                     }
@@ -199,7 +199,7 @@ fn sig_for(stage: &str, ia: usize, ib: usize) -> String {
 
 pub fn run(tier: Tier) -> i32 {
     let mut run = Run::new("C16", tier, "exploration");
-    run.rule = "all ordered pairs of the units of units.txt x 17 magnitudes (round ones, full-mantissa ones such as pi, 1/3, 0.1+0.2, very small and very large normal doubles) for convert_to (+ back), ±INF and NaN through convert_to, unit * and /, Number + - * / over 4 magnitudes; reference = scale/offset/dimension table parsed by the harness; non-trivial = ordered pair of two different units".into();
+    run.rule = "all ordered pairs of the units of units.txt x 17 magnitudes (round ones, full-mantissa ones such as pi, 1/3, 0.1+0.2, very small and very large normal doubles) for convert_to (+ back), ±INF and NaN through convert_to, unit * and /, Number + - * / over 15 operand pairs (incl. NaN, ±INF, ±0, subnormal, overflow on either side); reference = scale/offset/dimension table parsed by the harness; non-trivial = ordered pair of two different units".into();
     run.assume("forward error bounds 8ε/32ε·(|x·sa|+|oa|+|ob|)/|s| derived from the operation count of the conversion formula");
     run.assume("unit product/quotient scale compared with the library's own matching tolerance 10^-3");
     run.assume("+/- with exactly one unit-less operand is left unconstrained (the statement does not say)");
